@@ -222,3 +222,5 @@ A(V("c10-builder-uncalled", "C10", VL, "    if \"VVAR\" not in exclude and \"vmt
 A(V("c10-wrong-guard", "C10", VL, "    if \"MVAR\" not in exclude:\n        _add_MVAR(vf, model, master_fonts, axisTags)", "    if \"HVAR\" not in exclude:\n        _add_MVAR(vf, model, master_fonts, axisTags)", "BUILD"))
 A(V("c10-model-sorted", "C10", VL, "    normalized_master_locs = [\n        {ds.axes[k].tag: v for k, v in loc.items()} for loc in ds.normalized_master_locs\n    ]", "    normalized_master_locs = sorted(\n        ({ds.axes[k].tag: v for k, v in loc.items()} for loc in ds.normalized_master_locs), key=repr\n    )", "BUILD"))
 A(V("c10-default-unmapped", "C10", "designspaceLib/__init__.py", "axis.map_forward(axis.default)", "axis.default", "F22-axis", count=2))
+A(V("c07-markfilter-not-renumbered", "C07", SUB, "            self.MarkFilteringSet = s.used_mark_sets.index(self.MarkFilteringSet)", "            pass", "REMAP-IDX"))
+A(V("c07-palette-not-renumbered", "C07", SUB, "                record.PaletteIndex = new_index", "                pass", "REMAP-IDX"))
